@@ -38,7 +38,7 @@ func init() {
 		Rule: "rapid draws a document (table t with scalar columns and a nested array column, flat table t2) and either a composed pipeline " +
 			"(WITH c AS (Qi) Qo(c); Qo((Qi) x); chains c1->c2->outer; a CTE referenced twice through a self-join or through FROM plus an " +
 			"IN-subquery; FROM `c.items` on an array-valued CTE column) that must equal the staged evaluation over materialised intermediate " +
-			"results passed in as plain input, or a subquery form (select-item subquery on the row / on `<-` the enclosing document, IN-subquery, " +
+			"results passed in as plain input, or a subquery form (select-item subquery on the row / on `<-` the enclosing document, also correlated with the outer row through `<-.col`; IN-subquery on the row and on the root, " +
 			"[NOT] EXISTS correlated with the outer row) that must equal the standalone execution of the subquery text on that row (EXISTS: the " +
 			"reference 'some element satisfies p'). Non-trivial: inner result non-empty and the outer stage filters or projects it.",
 		Assumptions: []string{
@@ -198,7 +198,7 @@ func genOuterQuery(t *rapid.T, tb *Table, prefix string, label string) (string, 
 func genC07(t *rapid.T) any {
 	doc, sc := genC07Doc(t)
 	c := &C07Case{Doc: doc}
-	c.Form = rapid.SampledFrom([]string{"cte", "derived", "chain", "twice-join", "twice-insub", "path", "sel-sub", "sel-sub-root", "in-sub", "exists", "exists"}).Draw(t, "form")
+	c.Form = rapid.SampledFrom([]string{"cte", "derived", "chain", "twice-join", "twice-insub", "path", "sel-sub", "sel-sub-root", "sel-sub-root", "in-sub", "in-sub-root", "exists", "exists"}).Draw(t, "form")
 	switch c.Form {
 	case "cte":
 		qi, sch := genInnerQuery(t, sc.tb, "i1")
@@ -258,6 +258,14 @@ func genC07(t *rapid.T) any {
 			if rapid.Bool().Draw(t, "subwhere") {
 				sub += fmt.Sprintf(" WHERE %s %s %s", sc.t2c, rapid.SampledFrom(cmpOps).Draw(t, "subop"), sq.NumLit(rapid.SampledFrom([]float64{1, 2, 3}).Draw(t, "subc")))
 			}
+			if rapid.Bool().Draw(t, "correlated") {
+				// correlated with the outer row through `<-.col`: standalone form gets the row's value as a literal
+				sub = "SELECT " + sc.t2c + " FROM %s WHERE " + sc.t2c + " " + rapid.SampledFrom([]string{"=", "<=", ">", "!="}).Draw(t, "corrop") + " %s"
+				c.Sub = fmt.Sprintf(sub, "t2", "{OUTER:"+sc.k+"}")
+				c.SubOnDoc = true
+				c.Outer = fmt.Sprintf("SELECT %s, (%s) AS sb FROM t", sc.k, fmt.Sprintf(sub, "`<-t2`", "`<-."+sc.k+"`"))
+				break
+			}
 			c.Sub = fmt.Sprintf(sub, "t2")
 			c.SubOnDoc = true
 			c.Outer = fmt.Sprintf("SELECT %s, (%s) AS sb FROM t", sc.k, fmt.Sprintf(sub, "`<-t2`"))
@@ -269,6 +277,20 @@ func genC07(t *rapid.T) any {
 			c.Sub += fmt.Sprintf(" WHERE %s %s %s", sc.p, rapid.SampledFrom(cmpOps).Draw(t, "subop"), sq.NumLit(rapid.SampledFrom([]float64{1, 2, 3, 5}).Draw(t, "subc")))
 		}
 		c.Outer = fmt.Sprintf("SELECT %s, %s FROM t WHERE %s IN (%s)", sc.k, sc.v, sc.k, c.Sub)
+	case "in-sub-root":
+		// IN over a root table, optionally correlated with the outer row
+		c.InCol, c.InSubCol = sc.k, sc.t2c
+		c.SubOnDoc = true
+		if rapid.Bool().Draw(t, "correlated") {
+			op := rapid.SampledFrom([]string{"<=", ">=", "!=", "<"}).Draw(t, "corrop")
+			c.Sub = fmt.Sprintf("SELECT %s FROM t2 WHERE %s %s {OUTER:%s}", sc.t2c, sc.t2c, op, sc.v)
+			c.Outer = fmt.Sprintf("SELECT %s, %s FROM t WHERE %s IN (SELECT %s FROM `<-t2` WHERE %s %s `<-.%s`)", sc.k, sc.v, sc.k, sc.t2c, sc.t2c, op, sc.v)
+		} else {
+			cst := sq.NumLit(rapid.SampledFrom([]float64{1, 2, 3}).Draw(t, "subc"))
+			op := rapid.SampledFrom(cmpOps).Draw(t, "subop")
+			c.Sub = fmt.Sprintf("SELECT %s FROM t2 WHERE %s %s %s", sc.t2c, sc.t2c, op, cst)
+			c.Outer = fmt.Sprintf("SELECT %s, %s FROM t WHERE %s IN (SELECT %s FROM `<-t2` WHERE %s %s %s)", sc.k, sc.v, sc.k, sc.t2c, sc.t2c, op, cst)
+		}
 	case "exists":
 		// predicate over element columns p,q and outer columns k,s,v (names disjoint)
 		tb := &Table{Cols: []Col{{Name: sc.p, Kind: "int", Pool: []any{1.0, 2.0, 3.0, 5.0}}, {Name: sc.q, Kind: "str", Pool: []any{"a", "b", "ab"}}}}
@@ -283,6 +305,27 @@ func genC07(t *rapid.T) any {
 		c.InCol = sc.items
 	}
 	return c
+}
+
+// substOuter replaces {OUTER:col} markers of a standalone subquery by the literal value the outer
+// row holds in col (what a reference `<-.col` denotes inside the composed query).
+func substOuter(sub string, row map[string]any) string {
+	for {
+		i := strings.Index(sub, "{OUTER:")
+		if i < 0 {
+			return sub
+		}
+		j := strings.Index(sub[i:], "}")
+		col := sub[i+7 : i+j]
+		lit := "NULL"
+		switch v := row[col].(type) {
+		case float64:
+			lit = sq.NumLit(v)
+		case string:
+			lit = sq.StrLit(v)
+		}
+		sub = sub[:i] + lit + sub[i+j+1:]
+	}
 }
 
 func emptyAsNil(v any) any {
@@ -354,7 +397,7 @@ func checkC07(c *C07Case) Result {
 		for i, r := range rows {
 			var standalone Out
 			if c.SubOnDoc {
-				standalone = Run(val.CopyMap(c.Doc), c.Sub, Opts{})
+				standalone = Run(val.CopyMap(c.Doc), substOuter(c.Sub, r.(map[string]any)), Opts{})
 			} else {
 				standalone = Run(val.CopyMap(r.(map[string]any)), c.Sub, Opts{})
 			}
@@ -373,11 +416,16 @@ func checkC07(c *C07Case) Result {
 			}
 		}
 		return res
-	case "in-sub":
+	case "in-sub", "in-sub-root":
 		want := []any{}
 		for _, r := range rows {
 			rm := r.(map[string]any)
-			standalone := Run(val.CopyMap(rm), c.Sub, Opts{})
+			var standalone Out
+			if c.SubOnDoc {
+				standalone = Run(val.CopyMap(c.Doc), substOuter(c.Sub, rm), Opts{})
+			} else {
+				standalone = Run(val.CopyMap(rm), c.Sub, Opts{})
+			}
 			res.Execs++
 			if !standalone.OK() {
 				res.Discard = "standalone subquery fails: " + truncate(standalone.Describe(), 50)
